@@ -52,7 +52,7 @@ theorem loc_list_absent (L : List Label) (kind : Kind) (vs : List Label) (hn : L
 /-- the per-dimension step of `_get_indices` in label mode without tolerance / keepdims -/
 def giLabel (cfg : IndexCfg) : Ix × Axis → Except Err RawIx := fun (ix, ax) => do
   let r ← match ix with
-    | .mask m => pure (RawIx.mask m)
+    | .mask m => if m.length == ax.size then pure (RawIx.mask m) else .error .index
     | _ =>
       if cfg.mode != .position && !ix.isFull then loc ax.labels ax.kind ix cfg.tol
       else ixToRaw ix
@@ -185,14 +185,13 @@ theorem perDim_spec (cfg : IndexCfg) (hm : cfg.mode = .label) (ht : cfg.tol = no
     by_cases hlen : m.length = ax.labels.length
     · left
       refine ⟨.mask m, .list (nonzero m), ?_, ?_, ?_, ?_⟩
-      · simp [giLabel, bind, Except.bind, pure, Except.pure]
+      · simp [giLabel, hsize, hlen, bind, Except.bind, pure, Except.pure]
       · simp [resolveRaw, hsize, hlen]
       · simp [Spec.positions, hlen]
       · intro ps _ h; cases h
-    · right; right
-      refine ⟨.mask m, ?_, ?_, ?_⟩
-      · simp [giLabel, bind, Except.bind, pure, Except.pure]
-      · simp [resolveRaw, hsize, hlen]
+    · right; left
+      refine ⟨?_, ?_⟩
+      · simp [giLabel, hsize, hlen, bind, Except.bind, pure, Except.pure]
       · simp [Spec.positions, hlen]
   | slice s e st =>
     cases s with
